@@ -25,3 +25,6 @@ META = {
   "technique": "runtime monitor: operation histories vs immutable list model "
                "(exhaustive short histories + random long ones)",
 }
+
+# EXTENSION families added after the seeded-change rounds
+META["rule"] += (" Added after the seeded-change rounds: " "a quarter of the random histories use heterogeneous items (None, '', 0, False, tuples, strings) with type-agnostic map/filter functions; tee of a hub counts as one of its uses" ".")
